@@ -312,7 +312,7 @@ func (matrix *DenseInt32Matrix) ConstSlice(rfrom, rto, cfrom, cto int) ConstMatr
 }
 func (matrix *DenseInt32Matrix) ConstRow(i int) ConstVector {
   var v []int32
-  if matrix.transposed {
+  if matrix.transposed || matrix.cols == 0 {
     v = make([]int32, matrix.cols)
     for j := 0; j < matrix.cols; j++ {
       v[j] = matrix.values[matrix.index(i, j)]
@@ -325,7 +325,7 @@ func (matrix *DenseInt32Matrix) ConstRow(i int) ConstVector {
 }
 func (matrix *DenseInt32Matrix) ConstCol(j int) ConstVector {
   var v []int32
-  if matrix.transposed {
+  if matrix.transposed && matrix.rows > 0 {
     j = matrix.index(0, j)
     v = matrix.values[j:j + matrix.rows]
   } else {
